@@ -18,7 +18,8 @@ import (
 func init() {
 	register(&RuleSet{
 		ID: "C05",
-		Explanation: "R1 declared order: every sort call in package ovmf sorts a slice allocated in the same function (a copy), so the declared order of metadata sections / regions / RAM banks is never permuted in place; tdx.MRTD extends the measurement by ranging over the regions the parser returned, in that order. " +
+		Explanation: "R10 nothing in ovmf/tdx writes into storage obtained from a section's HostBuffer while section buffers share a backing array kept across sections. " +
+			"R1 declared order: every sort call in package ovmf sorts a slice allocated in the same function (a copy), so the declared order of metadata sections / regions / RAM banks is never permuted in place; tdx.MRTD extends the measurement by ranging over the regions the parser returned, in that order. " +
 			"R2 per-page sequence (ESP on the region measurement loop): within an iteration the page-add record precedes the extension records, both take the same page address expression, and extension is reachable only where the flag computed from the ExtendMR attribute or MeasureAllRegions is true. " +
 			"R3 hand-off block order (ESP on the hand-off builder — the function of package ovmf that writes an EFIHOBHandoffInfoTable): hand-off table → descriptors of the private (declared) resources → descriptors of the unaccepted resources → end-of-list marker → zero padding, and the buffer has no other writer. " +
 			"R4 table agreement: the section-type switches of the metadata validator and of the parser accept the same set of constants and both reject every other type. " +
@@ -34,6 +35,7 @@ func init() {
 }
 
 func runC05(c *Ctx) {
+	defer c05SectionBuffers(c)
 	// R8 = C08.T14: the region list built from the declared sections stays in step with the section list (the TD
 	// hand-off block is generated for the region at the index saved for the TD HOB section).
 	c.borrow("R8/C08.", runC08, func(rule, _ string) bool { return rule == "T14" })
@@ -674,4 +676,196 @@ func cursorCarriedByCaller(c *Ctx, f *ssa.Function, par *ssa.Parameter, cur *ssa
 		}
 	}
 	return false
+}
+
+// c05SectionBuffers — R10: the bytes a section is measured with are not overwritten through another section's buffer.
+// A section's HostBuffer may share its backing array with other sections' buffers (one run of zero pages kept in a
+// variable that outlives the section loop) only if nothing in the measurement packages writes into storage obtained
+// from a HostBuffer (an element store, copy, append over a re-slice, a bytes.Buffer built over a re-slice): with both,
+// building one section's contents in place (the TD hand-off block) changes what the others are measured with.
+func c05SectionBuffers(c *Ctx) {
+	ovmfPkg := repoPath("ovmf")
+	isHB := func(v ssa.Value) bool {
+		fa, ok := v.(*ssa.FieldAddr)
+		return ok && flow.FieldName(fa) == "HostBuffer" && namedIs(fa.X.Type(), ovmfPkg, "MaterialGuestPhysicalRegion")
+	}
+	// does slice value v come (through re-slicing / φ / conversions) from a load of a HostBuffer field?
+	var fromHB func(v ssa.Value, d int) bool
+	fromHB = func(v ssa.Value, d int) bool {
+		if d > 8 {
+			return false
+		}
+		switch x := v.(type) {
+		case *ssa.UnOp:
+			return x.Op == token.MUL && isHB(x.X)
+		case *ssa.Slice:
+			return fromHB(x.X, d+1)
+		case *ssa.Phi:
+			for _, e := range x.Edges {
+				if fromHB(e, d+1) {
+					return true
+				}
+			}
+		case *ssa.ChangeType:
+			return fromHB(x.X, d+1)
+		}
+		return false
+	}
+	type site struct {
+		f    *ssa.Function
+		pos  token.Pos
+		what string
+	}
+	var writes []site
+	var shared []site
+	nStores := 0
+	for _, f := range c.P.RepoFunctions() {
+		rel := load.RelPkg(f)
+		if (rel != "ovmf" && rel != "tdx") || c.isTestFunc(f) {
+			continue
+		}
+		for _, b := range f.Blocks {
+			for _, in := range b.Instrs {
+				switch x := in.(type) {
+				case *ssa.Store:
+					if ia, ok := x.Addr.(*ssa.IndexAddr); ok && fromHB(ia.X, 0) {
+						writes = append(writes, site{f, x.Pos(), "an element store"})
+					}
+					if isHB(x.Addr) {
+						nStores++
+						// a buffer kept in a cell that outlives this store (captured variable, package variable, field of
+						// another object) into which a fresh allocation is stored somewhere: the next section gets the same one
+						var walk func(v ssa.Value, d int)
+						seen := map[ssa.Value]bool{}
+						walk = func(v ssa.Value, d int) {
+							if d > 8 || seen[v] {
+								return
+							}
+							seen[v] = true
+							switch y := v.(type) {
+							case *ssa.Slice:
+								walk(y.X, d+1)
+							case *ssa.Phi:
+								for _, e := range y.Edges {
+									walk(e, d+1)
+								}
+							case *ssa.ChangeType:
+								walk(y.X, d+1)
+							case *ssa.UnOp:
+								if y.Op != token.MUL {
+									return
+								}
+								var cellStores []ssa.Value
+								switch cell := y.X.(type) {
+								case *ssa.FreeVar:
+									cellStores = storesToCapturedCell(cell)
+								case *ssa.Global:
+									sl := flow.NewSlicer(c.P)
+									sl.Visit(y, func(z ssa.Value) bool {
+										if _, ok := z.(*ssa.MakeSlice); ok {
+											cellStores = append(cellStores, z)
+										}
+										return true
+									}, nil)
+								case *ssa.FieldAddr:
+									if !isHB(cell) {
+										cellStores = flow.NewSlicer(c.P).FieldStores(flow.StructFieldKey(cell.X.Type(), cell.Field))
+									}
+								}
+								for _, sv := range cellStores {
+									if _, ok := sv.(*ssa.MakeSlice); ok {
+										shared = append(shared, site{f, x.Pos(), "a buffer kept in " + y.X.Name() + " across sections"})
+										return
+									}
+								}
+							}
+						}
+						walk(x.Val, 0)
+					}
+				case *ssa.Call:
+					if bi, ok := x.Call.Value.(*ssa.Builtin); ok {
+						switch bi.Name() {
+						case "copy":
+							if fromHB(x.Call.Args[0], 0) {
+								writes = append(writes, site{f, x.Pos(), "a copy"})
+							}
+						case "append":
+							if sl, ok := x.Call.Args[0].(*ssa.Slice); ok && sl.High != nil && fromHB(sl.X, 0) {
+								writes = append(writes, site{f, x.Pos(), "an append over a re-slice"})
+							}
+						}
+						continue
+					}
+					if cal := x.Call.StaticCallee(); cal != nil && cal.String() == "bytes.NewBuffer" && len(x.Call.Args) == 1 {
+						if sl, ok := x.Call.Args[0].(*ssa.Slice); ok && fromHB(sl.X, 0) {
+							writes = append(writes, site{f, x.Pos(), "a bytes.Buffer built over a re-slice"})
+						}
+					}
+				}
+			}
+		}
+	}
+	c.S.Floor("R10", "stores to MaterialGuestPhysicalRegion.HostBuffer in ovmf/tdx", 2, nStores)
+	if len(writes) > 0 && len(shared) > 0 {
+		for _, w := range writes {
+			c.S.Bad("R10", load.FuncName(w.f)+":writes section storage", c.pos(w.pos), fmt.Sprintf("%s writes into storage obtained from a section's HostBuffer while sections share a backing array (%s, %s in %s): other sections are measured with the bytes written here", w.what, shared[0].what, c.pos(shared[0].pos), load.FuncName(shared[0].f)))
+		}
+		return
+	}
+	c.S.OK("R10", "ovmf/tdx:section buffers", "", fmt.Sprintf("%d HostBuffer stores; %d writes into section storage, %d shared backing arrays: never both", nStores, len(writes), len(shared)), true)
+}
+
+// storesToCapturedCell: the values stored into the variable a closure captured (in the enclosing function and in all
+// of its closures).
+func storesToCapturedCell(fv *ssa.FreeVar) []ssa.Value {
+	fn := fv.Parent()
+	idx := -1
+	for i, v := range fn.FreeVars {
+		if v == fv {
+			idx = i
+		}
+	}
+	parent := fn.Parent()
+	if idx < 0 || parent == nil {
+		return nil
+	}
+	var cell ssa.Value
+	for _, b := range parent.Blocks {
+		for _, in := range b.Instrs {
+			if mc, ok := in.(*ssa.MakeClosure); ok && mc.Fn == fn && idx < len(mc.Bindings) {
+				cell = mc.Bindings[idx]
+			}
+		}
+	}
+	if cell == nil {
+		return nil
+	}
+	var out []ssa.Value
+	if refs := cell.Referrers(); refs != nil {
+		for _, r := range *refs {
+			if st, ok := r.(*ssa.Store); ok && st.Addr == cell {
+				out = append(out, st.Val)
+			}
+			// other closures capturing the same cell
+			if mc, ok := r.(*ssa.MakeClosure); ok {
+				for i, bnd := range mc.Bindings {
+					if bnd != cell {
+						continue
+					}
+					g := mc.Fn.(*ssa.Function)
+					if i >= len(g.FreeVars) {
+						continue
+					}
+					if rr := g.FreeVars[i].Referrers(); rr != nil {
+						for _, r2 := range *rr {
+							if st, ok := r2.(*ssa.Store); ok && st.Addr == ssa.Value(g.FreeVars[i]) {
+								out = append(out, st.Val)
+							}
+						}
+					}
+				}
+			}
+		}
+	}
+	return out
 }
